@@ -91,10 +91,12 @@ func VerifRaftApply(s *Server, t structs.MessageType, msg interface{}) (interfac
 func VerifReapTombstones(s *Server, index uint64) { s.reapTombstones(index) }
 
 func VerifResetSessionTimer(s *Server, sess *structs.Session) error { return s.resetSessionTimer(sess) }
-func VerifClearSessionTimer(s *Server, id string) error            { return s.clearSessionTimer(id) }
-func VerifClearAllSessionTimers(s *Server)                         { s.clearAllSessionTimers() }
-func VerifInitializeSessionTimers(s *Server) error                 { return s.initializeSessionTimers() }
-func VerifSessionTimerCount(s *Server) int                         { return s.sessionTimers.Len() }
+func VerifClearSessionTimer(s *Server, id string) error             { return s.clearSessionTimer(id) }
+func VerifClearAllSessionTimers(s *Server)                          { s.clearAllSessionTimers() }
+func VerifInitializeSessionTimers(s *Server) error                  { return s.initializeSessionTimers() }
+func VerifSessionTimerCount(s *Server) int                          { return s.sessionTimers.Len() }
 
 // VerifSetQueryMeta runs the real (*Server).SetQueryMeta (index forced >= 1 etc.).
-func VerifSetQueryMeta(s *Server, m blockingquery.ResponseMeta, token string) { s.SetQueryMeta(m, token) }
+func VerifSetQueryMeta(s *Server, m blockingquery.ResponseMeta, token string) {
+	s.SetQueryMeta(m, token)
+}
